@@ -24,7 +24,7 @@ RT = 1e-8
 
 
 def bounds(tier):
-    return {"expressions": "quick: every leaf class + two children per (combinator, semantic option) at depth<=1; thorough: all at depth<=2", "inputs_per_method": 4, "distributions": "10 named families + mixture + 8 factory configs x invert x cond",
+    return {"expressions": "quick: every leaf class + two children per (combinator, semantic option) at depth<=1; thorough: all leaf configurations plus one per (kind, option, child class) at depth 1-2", "inputs_per_method": 4, "distributions": "10 named families + mixture + 8 factory configs x invert x cond",
             "exhaustive_within_bounds": True}
 
 
@@ -50,6 +50,8 @@ def enumerate_cases(tier, seed):
             if seen[key] <= 2:
                 keep.append(s_)
         sel = keep
+    if tier != "quick":
+        sel = [s_ for s_ in sel if g.info(s_).depth == 0] + g._one_per_kind([s_ for s_ in sel if g.info(s_).depth >= 1])
     cases = [{"id": "expr|" + g.canon(s), "leg": "expr", "spec": s, "x64": True, "tier": tier, "seed": seed} for s in sel]
     for d in DISTS:
         cases.append({"id": f"dist|{d}", "leg": "dist", "dist": d, "x64": True, "tier": tier, "seed": seed})
